@@ -50,10 +50,17 @@ def matches_known(v, known):
             continue
         if k.get("contract") and k["contract"] != v.get("contract"):
             continue
+        if k.get("contract_prefix") and not (v.get("contract") or "").startswith(k["contract_prefix"]):
+            continue
         pats = k.get("input_any") or ([k["input"]] if k.get("input") else [])
         if any(p == v.get("input") or (p.endswith("*") and (v.get("input") or "").startswith(p[:-1]))
                for p in pats):
             return k
+        if k.get("input_regex"):
+            import re
+            if re.search(k["input_regex"], v.get("input") or "") and \
+                    (not k.get("contract_prefix") or (v.get("contract") or "").startswith(k["contract_prefix"])):
+                return k
         if k.get("what_fails_regex"):
             import re
             if re.search(k["what_fails_regex"], v.get("what_fails") or ""):
